@@ -45,8 +45,9 @@ M = [
  ("c06_dfs_pred_skips_last_neighbour_of_big_rows", "C06", "src/algo/dfs_pred.rs",
   "            if !unsafe { *visited_ptr.add(x) } {\n                self.stack.push((Some(v), x));", "            if !unsafe { *visited_ptr.add(x) } && x != v + 7 {\n                self.stack.push((Some(v), x));"),
  ("c07_one_round_short", "C07 C08", "src/algo/bellman_ford_moore.rs", "        for _ in 1..order {", "        for _ in 2..order {"),
- ("c07_unreached_not_skipped_in_final_pass", "C07", "src/algo/bellman_ford_moore.rs",
-  "                    if dist_u != isize::MAX && *dist_ptr.add(v) > dist_u + w {", "                    if dist_u != isize::MAX && *dist_ptr.add(v) >= dist_u + w && w < -40 {\n                        return None;\n                    }\n\n                    if dist_u != isize::MAX && *dist_ptr.add(v) > dist_u + w {"),
+ ("c07_final_pass_skips_last_arc", "C07", "src/algo/bellman_ford_moore.rs",
+  "            for i in 0..arcs_len {\n                unsafe {\n                    let (u, v, w) = *arcs_ptr.add(i);\n                    let dist_u = *dist_ptr.add(u);\n\n                    if dist_u != isize::MAX && *dist_ptr.add(v) > dist_u + w {",
+  "            for i in 0..arcs_len.saturating_sub(usize::from(arcs_len > 9)) {\n                unsafe {\n                    let (u, v, w) = *arcs_ptr.add(i);\n                    let dist_u = *dist_ptr.add(u);\n\n                    if dist_u != isize::MAX && *dist_ptr.add(v) > dist_u + w {"),
  ("c08_arc_cells_transposed", "C08 C18", "src/algo/floyd_warshall.rs",
   "                *dist_ptr.add(u * order + v) = w;", "                *dist_ptr.add(if order > 6 { v * order + u } else { u * order + v }) = w;"),
  ("c08_infinity_guard_dropped", "C08", "src/algo/floyd_warshall.rs",
